@@ -350,7 +350,7 @@ func (s *summarizer) term(v ssa.Value) *Term {
 		return t
 	}
 	if s.inprog[v] {
-		return typed(tSym("cyclic:"+v.Name()), v.Type())
+		return typed(tSym("cyclic:"+shortType(v.Type())), v.Type())
 	}
 	s.inprog[v] = true
 	t := s.build(v)
@@ -899,6 +899,14 @@ func (s *summarizer) binop(x *ssa.BinOp) *Term {
 			}
 			return eq
 		}
+		if x.Op == token.EQL || x.Op == token.NEQ {
+			if str, ok := lenOfString(x.X, x.Y); ok {
+				return &Term{Op: "cmp", Val: x.Op.String(), Args: []*Term{s.term(str), tConstStr("")}, Bool: true}
+			}
+			if str, ok := lenOfString(x.Y, x.X); ok {
+				return &Term{Op: "cmp", Val: x.Op.String(), Args: []*Term{s.term(str), tConstStr("")}, Bool: true}
+			}
+		}
 		ca, cb := *a, *b
 		ca.Num, cb.Num = num, num
 		ca.Int, cb.Int = isInteger(x.X.Type()), isInteger(x.Y.Type())
@@ -909,6 +917,21 @@ func (s *summarizer) binop(x *ssa.BinOp) *Term {
 		return tOr(a, b)
 	}
 	return typed(&Term{Op: "binop", Val: x.Op.String(), Args: []*Term{a, b}}, x.Type())
+}
+
+// lenOfString: l is len(str) of a string and zero is the constant 0.
+func lenOfString(l, zero ssa.Value) (ssa.Value, bool) {
+	if !isIntConst(zero, 0) {
+		return nil, false
+	}
+	call, ok := l.(*ssa.Call)
+	if !ok {
+		return nil, false
+	}
+	if b, ok := call.Call.Value.(*ssa.Builtin); !ok || b.Name() != "len" || len(call.Call.Args) != 1 || !isString(call.Call.Args[0].Type()) {
+		return nil, false
+	}
+	return call.Call.Args[0], true
 }
 
 // loop header phis are symbols; other phis become ite chains over the path conditions of their edges.
@@ -1053,7 +1076,12 @@ func (s *summarizer) callTerm(x *ssa.Call) *Term {
 		if b, ok := cm.Value.(*ssa.Builtin); ok {
 			name = "builtin:" + b.Name()
 		} else {
-			name = fmt.Sprintf("dyn#%d", s.ord.dynOrd(x, describeValue(cm.Value)))
+			if isValueGeneratorSig(cm.Value.Type()) {
+				// every random draw is a different value: number the draws of one generator in traversal order
+				name = fmt.Sprintf("draw#%d", s.ord.dynOrd(x, describeValue(cm.Value)))
+			} else {
+				name = "dyn"
+			}
 			args = append(args, s.term(cm.Value))
 		}
 	}
